@@ -183,8 +183,15 @@ def fam_nest():
     a = StructDef('NsA', [Field(1, 'default', ('map', S('string'), ('list', ('map', S('i32'), S('string'))))), Field(2, 'default', ('list', ('list', ('set', S('i8')))))])
     b = StructDef('NsB', [Field(1, 'default', ('struct', LEAF, False)), Field(2, 'default', ('map', ('struct', LEAF, True), ('struct', LEAFD, False))),
                           Field(3, 'optional', ('list', ('struct', LEAFD, True)))])
+    # mutually recursive types with further struct fields after the back-reference
+    mra = StructDef('MrA', [Field(2, 'default', S('i32'))])
+    mrb = StructDef('MrB', [Field(2, 'optional', ('struct', LEAF, True)), Field(3, 'default', ('list', ('struct', LEAFD, False)))])
+    mra.fields.insert(0, Field(1, 'optional', ('struct', mrb, True), name='B'))
+    mra.decl_fields = mra.fields
+    mrb.fields.insert(0, Field(1, 'optional', ('struct', mra, True), name='A'))
+    mrb.decl_fields = mrb.fields
     sm = {'codec': [{'S': 1, 'L': 1, 'M': 1, 'D': 2}]}
-    return [{'sd': rec, 'kinds': ['codec'], 'params': sm}, {'sd': a, 'kinds': ['codec'], 'params': sm}, {'sd': b, 'kinds': ['codec'], 'params': sm}]
+    return [{'sd': mra, 'kinds': ['codec'], 'params': sm}, {'sd': mrb, 'kinds': ['codec'], 'params': sm}, {'sd': rec, 'kinds': ['codec'], 'params': sm}, {'sd': a, 'kinds': ['codec'], 'params': sm}, {'sd': b, 'kinds': ['codec'], 'params': sm}]
 
 def fam_threshold(full=False):
     th = StructDef('ThS', [Field(1, 'default', S('string')), Field(2, 'default', ('list', S('i64'))), Field(3, 'default', S('binary')),
